@@ -3,10 +3,12 @@ package main
 import (
 	"context"
 	"fmt"
+	"os"
 	"sort"
 	"strings"
 	"time"
 
+	"github.com/Comcast/sheens/verifrt/ref/rtimers"
 	"github.com/Comcast/sheens/verifrt/sched"
 	"github.com/Comcast/sheens/verifrt/vh"
 )
@@ -42,22 +44,26 @@ type c17Case struct {
 	Log      []string  `json:"log,omitempty"`
 }
 
-// ev is one observation, in the global order the scheduler serialised them.
-type ev struct {
-	Kind  string // add | cancel | fire-begin | fire-end | pending
-	Id    string
-	Token int
-	Err   string
-	Now   int64
-	IDs   []string
-	Due   int64
-}
+type ev = rtimers.Ev
 
 type timersRun struct {
-	evs    []ev
-	x      *sched.Exec
-	tokens int
+	evs         []ev
+	x           *sched.Exec
+	tokens      int
+	handlerDone bool
 }
+
+//go:norace
+func (r *timersRun) takeHandler() bool {
+	if r.handlerDone {
+		return false
+	}
+	r.handlerDone = true
+	return true
+}
+
+//go:norace
+func (r *timersRun) nextToken() int { r.tokens++; return r.tokens }
 
 //go:norace
 func (r *timersRun) rec(e ev) { e.Now = sched.NowNS(); r.evs = append(r.evs, e) }
@@ -67,12 +73,10 @@ func runTimersScenario(sc tScenario, prefix, prefixN []int) (*sched.Exec, *timer
 	r := &timersRun{x: x}
 	ctx, cancel := context.WithCancel(context.Background())
 	var ts *Timers
-	handlerDone := false
 	do := func(who string, op tOp) {
 		switch op.K {
 		case "make":
-			r.tokens++
-			tok := r.tokens
+			tok := r.nextToken()
 			due := sched.NowNS() + op.D*int64(time.Millisecond)
 			err := ts.Add(ctx, op.Id, map[string]interface{}{"token": tok}, time.Duration(op.D)*time.Millisecond)
 			r.rec(ev{Kind: "add", Id: op.Id, Token: tok, Err: errStr(err), Due: due})
@@ -97,8 +101,7 @@ func runTimersScenario(sc tScenario, prefix, prefixN []int) (*sched.Exec, *timer
 		tok := message.(map[string]interface{})["token"].(int)
 		r.rec(ev{Kind: "fire-begin", Token: tok})
 		sched.Yield("in-handler")
-		if !handlerDone {
-			handlerDone = true
+		if r.takeHandler() {
 			for _, op := range sc.Handler {
 				do("handler", op)
 				sched.Yield("in-handler-after-op")
@@ -130,115 +133,6 @@ func errStr(err error) string {
 		return ""
 	}
 	return err.Error()
-}
-
-// monitor replays the observation log through one automaton per id and
-// returns the violated clauses (key, detail).
-//
-// A timer whose due time has been reached may already be committed to firing
-// (retired from the bookkeeping, handler not yet entered); the monitor cannot
-// see that instant, so for such an "in-flight" token it accepts both views -
-// still pending or already gone - and then insists that it does fire.
-func timersMonitor(r *timersRun, complete bool) [][2]string {
-	var out [][2]string
-	bad := func(k, d string) { out = append(out, [2]string{k, d}) }
-	type tokInfo struct {
-		id       string
-		due      int64
-		accepted bool
-		fired    int
-		canceled bool
-		mustFire bool // was treated as committed by some answer
-	}
-	toks := map[int]*tokInfo{}
-	pending := map[string]int{} // id -> token accepted, not (known to be) fired, not cancelled
-	shutdown := false
-	inflight := func(tok int, now int64) bool { return now >= toks[tok].due }
-	for _, e := range r.evs {
-		switch e.Kind {
-		case "add":
-			old, have := pending[e.Id]
-			if e.Err == "" {
-				if have {
-					if inflight(old, e.Now) {
-						toks[old].mustFire = true // the id can only be free because that timer is committed to firing
-					} else {
-						bad("add-accepted-while-id-pending", fmt.Sprintf("make(%s) accepted token %d while token %d (not yet due) was still pending under that id", e.Id, e.Token, old))
-					}
-				}
-				toks[e.Token] = &tokInfo{id: e.Id, due: e.Due, accepted: true}
-				pending[e.Id] = e.Token
-			} else if !have && !shutdown {
-				bad("id-not-reusable-after-firing", fmt.Sprintf("make(%s) was refused (%s) although no timer is pending under that id (its timer has fired or was cancelled)", e.Id, e.Err))
-			}
-		case "cancel":
-			tok, have := pending[e.Id]
-			if e.Err == "" {
-				if !have {
-					bad("cancel-succeeded-for-non-pending-id", fmt.Sprintf("cancel(%s) reported success although nothing was pending under that id", e.Id))
-				} else {
-					toks[tok].canceled = true
-					delete(pending, e.Id)
-				}
-			} else if have {
-				if inflight(tok, e.Now) {
-					toks[tok].mustFire = true
-				} else {
-					bad("cancel-failed-for-pending-id", fmt.Sprintf("cancel(%s) failed (%s) although token %d is pending and not yet due", e.Id, e.Err, tok))
-				}
-			}
-		case "fire-begin":
-			t := toks[e.Token]
-			if t == nil || !t.accepted {
-				bad("fired-unaccepted-timer", fmt.Sprintf("token %d fired but was never accepted", e.Token))
-				continue
-			}
-			t.fired++
-			if t.fired > 1 {
-				bad("fired-twice", fmt.Sprintf("token %d (id %s) fired %d times", e.Token, t.id, t.fired))
-			}
-			if e.Now < t.due {
-				bad("fired-early", fmt.Sprintf("token %d fired at %dns, due at %dns", e.Token, e.Now, t.due))
-			}
-			if t.canceled {
-				bad("fired-after-successful-cancel", fmt.Sprintf("token %d (id %s) fired after a cancel of that id had reported success", e.Token, t.id))
-			}
-			if pending[t.id] == e.Token {
-				delete(pending, t.id)
-			}
-		case "pending":
-			must, may := map[string]bool{}, map[string]bool{}
-			for id, tok := range pending {
-				if inflight(tok, e.Now) {
-					may[id] = true
-				} else {
-					must[id] = true
-				}
-			}
-			rep := map[string]bool{}
-			for _, id := range e.IDs {
-				rep[id] = true
-				if !must[id] && !may[id] {
-					bad("pending-report-lists-non-pending", fmt.Sprintf("reported pending %v includes %s, which is neither accepted-and-waiting nor in flight", e.IDs, id))
-				}
-			}
-			for id := range must {
-				if !rep[id] {
-					bad("pending-report-misses-pending", fmt.Sprintf("reported pending %v misses %s, whose timer was accepted, is not yet due, and was not cancelled", e.IDs, id))
-				}
-			}
-		case "shutdown":
-			shutdown = true
-		}
-	}
-	if complete && !shutdown {
-		for tok, t := range toks {
-			if t.accepted && !t.canceled && t.fired == 0 {
-				bad("accepted-timer-never-fired", fmt.Sprintf("token %d (id %s) was accepted, never cancelled, and never fired although every timer was driven to its due time", tok, t.id))
-			}
-		}
-	}
-	return out
 }
 
 func timersScenarios(maxReq int, thorough bool) []tScenario {
@@ -289,12 +183,15 @@ func C17mcrew(c *vh.Ctx) {
 		}
 		x, r := runTimersScenario(cs.Scenario, cs.Choices, cs.Sizes)
 		c.Eval()
-		for _, v := range timersMonitor(r, !x.HorizonHit && x.Deadlock == "") {
+		for _, v := range rtimers.Monitor(r.evs, !x.HorizonHit && x.Deadlock == "") {
 			c.Violation("C17/mcrew/"+v[0], v[1], cs)
 		}
 		return
 	}
 	maxReq := c.Pick(3, 4)
+	if os.Getenv("VERIF_RACE") == "1" {
+		maxReq, bound = 2, 2 // the race pass re-runs a reduced exploration under ThreadSanitizer
+	}
 	scs := timersScenarios(maxReq, !c.Quick())
 	c.Bound("requests_max", maxReq)
 	c.Bound("deviations_max", bound)
@@ -319,6 +216,8 @@ func C17mcrew(c *vh.Ctx) {
 			},
 			func(x *sched.Exec, devs int) {
 				c.Eval()
+				c.Count("sched_fast_steps", int64(x.FastSteps))
+				c.Count("sched_full_dumps", int64(x.FullDumps))
 				r := x.UserData.(*timersRun)
 				fired := false
 				var sb strings.Builder
@@ -341,7 +240,7 @@ func C17mcrew(c *vh.Ctx) {
 					}
 					return
 				}
-				for _, v := range timersMonitor(r, !x.HorizonHit) {
+				for _, v := range rtimers.Monitor(r.evs, !x.HorizonHit) {
 					key := "C17/mcrew/" + v[0]
 					if seen[key] {
 						c.R.ViolationKeys[key]++
@@ -352,7 +251,7 @@ func C17mcrew(c *vh.Ctx) {
 					x2, r2 := runTimersScenario(sc, cs, ns)
 					again := false
 					if x2.Nondet == "" {
-						for _, v2 := range timersMonitor(r2, !x2.HorizonHit) {
+						for _, v2 := range rtimers.Monitor(r2.evs, !x2.HorizonHit) {
 							if v2[0] == v[0] {
 								again = true
 							}
